@@ -15,7 +15,7 @@ ORACLE = ('an independent precedence-climbing evaluator over the table \\ > MOD 
           'pattern, relational -1/0); Division by zero / Overflow when the reference operation has no result')
 BOUNDS = {'expressions': 'A% op1 B% op2 C% for ordered pairs of the 11 operators \\ MOD = < > <> AND OR XOR EQV '
                          'IMP (quick: all 81 pairs without \\ and MOD plus 5 pairs with one of them; thorough: all 117 pairs with '
-                         'at most one of \\ and MOD; expressions with two division-type operators are NOT claimed), '
+                         'at most one of \\ and MOD; expressions with two division-type operators only with B% in -7..7 and C% in -3..3), '
                          'plus NOT in front of each operand position and one parenthesised form for a sample',
           'operands': 'every 16-bit value of A%, B%, C% (symbolic)',
           'outside': '^ * / + - and unary minus (they promote to floating point: their rounding is C04/C05, and '
@@ -85,6 +85,14 @@ def body_two(h):
     raws = {}
     for n in (b'A%', b'B%', b'C%'):
         raws[n] = h.bytes(n[:1].decode().lower(), 2)
+        if h.params.get('small') and n != b'A%':
+            # two division-type operators: the divisors are enumerated (forked) from a small range,
+            # so that each path divides by constants
+            lim = h.params['small'][n]
+            v = s16(raws[n])
+            h.assume(s_and(v >= -lim, v <= lim))
+            v = h.concretize(v, 2 * lim + 2)
+            raws[n] = bytes([v % 256, (v // 256) % 256])
         session.poke_int(h, impl, n, raws[n])
     impl.execute(b'GOTO 10')
     A, B, C = s16(raws[b'A%']), s16(raws[b'B%']), s16(raws[b'C%'])
@@ -150,6 +158,11 @@ def cases(tier):
     for o1, o2 in pairs:
         cs.append(Case('plain %s %s' % (o1, o2), body_two, backend='BV',
                        params={'ops': (o1, o2)}, timeout_s=3000, query_timeout_ms=600000))
+    # two division-type operators, second and third operand in -7..7 / -3..3 (every A%)
+    for o1, o2 in [('MOD', '\\'), ('\\', 'MOD'), ('MOD', 'MOD'), ('\\', '\\')]:
+        cs.append(Case('small %s %s' % (o1, o2), body_two, backend='BV',
+                       params={'ops': (o1, o2), 'small': {b'B%': 7, b'C%': 3}}, timeout_s=3000,
+                       max_fanout=200, query_timeout_ms=600000))
     sample = [('\\', 'AND'), ('AND', '\\'), ('=', 'OR'), ('OR', '='),
               ('IMP', 'EQV'), ('XOR', 'AND'), ('<', 'AND')]
     for o1, o2 in (sample if tier != 'thorough' else pairs):
